@@ -183,6 +183,8 @@ def mutants(args, corpus_path=None, label="mutants"):
     bad = [r for r in results if r["status"] not in ("DETECTED", "SILENT")]
     out = os.path.join(HERE, f"{label}/last_results.json")
     json.dump(results, open(out, "w"), indent=1)
+    if full and not args:
+        json.dump(results, open(os.path.join(HERE, f"{label}/last_full_results.json"), "w"), indent=1)
     print(f"{label}: {len(results)} edits, {len(results) - len(bad)} as expected, {len(bad)} not; {time.time() - t0:.0f}s; results in {out}")
     return 1 if bad else 0
 
@@ -194,7 +196,8 @@ def seeded(args):
         meta = os.path.join(d, name, "meta.json")
         if os.path.exists(meta):
             mj = json.load(open(meta))
-            corpus.append({"id": name, "kind": "breaking", "expect": mj["property"] + ": " + mj.get("summary", ""), "patch": os.path.join(d, name, "patch.diff")})
+            kind = mj.get("kind", "breaking")
+            corpus.append({"id": name, "kind": kind, "expect": (mj.get("property", "benign") + ": " + mj.get("summary", "")), "patch": os.path.join(d, name, "patch.diff")})
     tmp = os.path.join(d, ".corpus.tmp.json")
     json.dump(corpus, open(tmp, "w"))
     try:
